@@ -137,6 +137,8 @@ structure St where
   flying : Bool               -- an exception raised by user code is propagating
   listener : Listener         -- what `StateProducer.__listener` of the device object refers to now
   pushListener : Bool         -- the user's PushListener is registered on the FacadePushUpdater
+  closedUpTo : Nat            -- `_closed_protocols`: the protocols [0, closedUpTo) have been handed to a close()
+                              -- (connect() registers in order and every close() marks in order: always a prefix)
   handlers : Nat              -- protocols registered in `_protocol_handlers` so far: `connect()` awaits the
                               -- protocols' connect() one after the other, anything can happen in between
   deviceHeld : Bool           -- the user still holds the device object (object 0) itself; the interface
@@ -148,7 +150,7 @@ def init (cfg : Cfg) : St :=
   { callsMade := 0, pending := none, tasks := 0, nextId := 0, closeLog := [],
     shield := List.replicate cfg.nObjs (some false), pushOn := false,
     notified := [], reports := [], inner := [], raised := false, flying := false,
-    listener := cfg.listener, pushListener := true, handlers := cfg.connected0,
+    listener := cfg.listener, pushListener := true, closedUpTo := 0, handlers := cfg.connected0,
     deviceHeld := true }
 
 /-- `shield.is_blocking(obj)` -/
@@ -229,12 +231,31 @@ def closeProtos (cfg : Cfg) (k : St → St) : Nat → List Proto → St → St
       let s := { s with tasks := s.tasks + p.tasks }
       closeProtos cfg k (i + 1) ps s
 
+/-- the second half of `close()` ("fix: closing the facade again closes protocols connected after
+    the first close"): on a device that is already closed,
+        for protocol, setup_data in list(self._protocol_handlers.items()):
+            if protocol not in self._closed_protocols:
+                self._closed_protocols.add(protocol)
+                self._pending_tasks.update(setup_data.close())
+    — protocols that finished connecting after the close are closed now, their tasks join the same
+    set; an exception in flight leaves the loop (the protocol is marked, later ones are not) -/
+def lateLoop (cfg : Cfg) (k : St → St) : Nat → List Proto → St → St
+  | _, [], s => s
+  | i, p :: ps, s =>
+    if i < s.closedUpTo then lateLoop cfg k (i + 1) ps s
+    else
+      let s := { s with closedUpTo := i + 1, closeLog := s.closeLog ++ [i] }
+      let s := p.onClose.foldl
+        (fun s rb => if s.flying then s else reportWith cfg k s ⟨i, rb.1⟩ rb.2) s
+      if s.flying then s
+      else lateLoop cfg k (i + 1) ps { s with tasks := s.tasks + p.tasks }
+
 /-- `FacadeAppleTV.close()` (the returned set is `pending` of the result) -/
 def closeF (cfg : Cfg) : Nat → St → St
   | 0, s => { s with raised := true }
   | fuel + 1, s =>
     match s.pending with
-    | some _ => s
+    | some _ => lateLoop cfg (closeF cfg fuel) 0 (cfg.protos.take s.handlers) s
     | none =>
       -- self.push_updater.stop(): both members are guarded
       if isBlocking s 0 || isBlocking s cfg.pushObj then { s with raised := true }
@@ -242,11 +263,16 @@ def closeF (cfg : Cfg) : Nat → St → St
         let s := { s with pushOn := false }
         let s := { s with pending := some s.nextId, nextId := s.nextId + 1, tasks := 1 }
         let s := blockEverything s
-        -- only what connect() has registered so far is in `_protocol_handlers`
-        if s.raised then s else closeProtos cfg (closeF cfg fuel) 0 (cfg.protos.take s.handlers) s
+        -- only what connect() has registered so far is in `_protocol_handlers`; all of it is
+        -- recorded in `_closed_protocols` before the loop starts
+        if s.raised then s
+        else closeProtos cfg (closeF cfg fuel) 0 (cfg.protos.take s.handlers)
+          { s with closedUpTo := (cfg.protos.take s.handlers).length }
 
-/-- fuel used by the top-level entry points (2 levels of `close` are ever needed) -/
-abbrev topFuel : Nat := 2
+/-- fuel used by the top-level entry points: a close() nests at most twice (the late loop's first
+    delivered report → `state_was_updated` → close() over the remaining late protocols, whose reports
+    are all swallowed; a close() made by the user's handler afterwards finds nothing left) -/
+abbrev topFuel : Nat := 3
 
 inductive Ev
   | report (i : Nat) (k : Kind) (b : Beh)  -- protocol i: core.device_listener.listener.connection_lost/closed;
